@@ -386,6 +386,13 @@ struct World
         else if ( oracle == 32 ) c.prune = true;             // only a protocol failure puts reference and implementation out of step;
                                                              // the other oracles are pure observations   // ORACLE=0: development build, report all
     }
+    // a protocol failure after which the reference is still in step ( the reference simply ignores the event ): reported by C32,
+    // the other builds keep exploring so that their oracles can judge what the implementation does next
+    void fail_in_step( mc::Ctx& c, const std::string& sig, const std::string& detail )
+    {
+        failed_mask |= 1u;
+        if ( ORACLE_ == 0 || ORACLE_ == 32 ) c.fail( sig, detail );
+    }
     bool failed( int oracle ) const { return ( failed_mask >> ( oracle - 32 ) ) & 1; }
 
     // ----- reference central: values
@@ -642,7 +649,7 @@ struct World
             {
                 c.cls( "user:stale-answer" );
                 if ( cd->state() != before )
-                    fail( c, 32, "order:stale-user-answer-changes-pairing-state:after-abort",
+                    fail_in_step( c, "order:stale-user-answer-changes-pairing-state:after-abort",
                           mc::fmt( "the question was asked in a pairing that has been aborted since (reference phase %s); the late answer moved the pairing state from %d to %d", phase_name[ ref.phase ], int( before ), int( cd->state() ) ) );
             }
             return true; }
@@ -995,6 +1002,14 @@ struct World
             const int exp = ref.done ? ref.status : ST_NO_KEY;
             if ( got != exp ) status_mismatch( c, got, "local_device_pairing_status()" );
             else if ( ref.done ) c.cls( mc::fmt( "status:%s:after-%d", st_name[ got ], int( ref.how ) ) );
+        }
+        else if ( status_class( cd->local_device_pairing_status() ) == ST_AUTH && !( ref.asked && ref.user == U_YES ) && !( ref.done && ref.status == ST_AUTH ) )
+        {
+            // protocol oracle failed in this step, but this much is certain: authenticated is reported although the reference saw neither
+            // the user confirm the values of the current pairing nor a completed legacy passkey / OOB exchange
+            fail( c, 35, "status:authenticated-without-user-confirmation-of-this-pairing",
+                  mc::fmt( "local_device_pairing_status() = authenticated_key after %s; reference phase %s, user %s asked in this pairing, request %s",
+                           e.name.c_str(), phase_name[ ref.phase ], ref.asked ? "was" : "was not", mc::hex( ref.preq, 7 ).c_str() ) );
         }
     }
 };
